@@ -114,9 +114,11 @@ def gen_budget(rng, profile='migrate', year=2025):
         rows = st.gen_rows(rng, rng.randint(1, 4), first_id=900, year=year)
         # make some supplemental amounts coincide with primary rows so cross-source rules fire
         prim = [r for s in b['sources'] for r in s['rows']]
-        for r in rows:
+        for k_, r in enumerate(rows):
             if prim and rng.random() < 0.6:
-                src_row = rng.choice(prim)
+                # (the first supplemental row often echoes the very first transaction of the run: whatever happens on first use
+                # of the supplemental rows then shows in the report)
+                src_row = prim[0] if k_ == 0 and rng.random() < 0.6 else rng.choice(prim)
                 r['value'] = abs(src_row['value'])
                 r['style'] = 'plain3' if src_row['style'] == 'plain3' else 'plain'
             elif r['style'] != 'plain3':
